@@ -334,12 +334,6 @@ pub proof fn lemma_ptr_preserved(rr: Reference, r: Reference, t: Vars)
 		assert(through_pointer(r.steps@[i]));
 	}
 }
-// Vec::reverse followed by pop() visits the elements first to last
-pub proof fn lemma_reversed<T>(v: Seq<T>, r: Seq<T>)
-	requires r == v.reverse(),
-	ensures r.len() == v.len(), forall|k: int| 0 <= k < r.len() ==> #[trigger] r[k] == v[v.len() - 1 - k],
-{
-}
 
 // ---- what the oracle says, spelled out (sanity of the spec against the property text)
 // `x = v` / `x[i] = v` / `x.m = v` where x is a by-value or view parameter of known type: rejected with E530, pointing at the use and at the parameter
